@@ -5,12 +5,9 @@ from props import seq_common as sc
 
 def consts(tier):
     if tier == "quick":
-        base = dict(Facs=set(sc.ALL_FACS), RMax=3, SMax=3, NStates=3, Delays={0, 1, 2}, MaxOut=4, Horizon=5, Faults=False,
-                    NVals=2, SeqLen=3, DMax=3, PMax=2, NMax=3, Lazy=True)
-        return [
-            ("plain", base, {}),
-            ("faults", dict(base, Facs={"from_iterable", "generate", "generate_rel"}, NStates=2, Delays={0, 1}, Faults=True), {}),
-        ]
+        # ONE TLC invocation: with lazy tables the raising-callback entries are just more choices of the same run
+        return [("quick", dict(Facs=set(sc.ALL_FACS), RMax=3, SMax=3, NStates=3, Delays={0, 1, 2}, MaxOut=4, Horizon=5,
+                               Faults=True, NVals=2, SeqLen=3, DMax=3, PMax=2, NMax=3, Lazy=True), {})]
     base = dict(Facs=set(sc.ALL_FACS), RMax=6, SMax=4, NStates=3, Delays={0, 1, 2}, MaxOut=5, Horizon=7, Faults=False,
                 NVals=3, SeqLen=4, DMax=4, PMax=3, NMax=5, Lazy=True)
     return [
@@ -39,7 +36,7 @@ def run(tier):
     for label, gs in groups.items():
         for g in gs:
             if label == "faults" and not sc.src_has_fault(g[0]):
-                continue      # duplicates of scenarios of the fault-free runs
+                continue      # (thorough) duplicates of scenarios of the fault-free runs
             (side if sc.src_has_fault(g[0]) else main).append(g)
     ck.exhaustive = True
     ck.rule = ("every range(a), range(a, b), range(a, b, s) with bounds in -RMax..RMax and steps +-1..SMax; every iterable over "
@@ -49,11 +46,16 @@ def run(tier):
                "timer(d), timer(d, p), interval(p) up to the horizon; repeat_value(v, n) for n = 0..NMax and unbounded; "
                "enumerated by TLC on OpsSources.tla and replayed in every call form on TestScheduler (timed factories also on "
                "HistoricalScheduler with timedelta arguments); non-trivial = the expected output has at least two notifications")
-    total, fails = sc.src_replay(main, rich=(tier != "quick"), procs=8)
-    ck.impl += total
+    # one worker pool for both parts (forking a pool is the expensive step on a loaded box)
+    rich = tier != "quick"
+    n_all, all_fails = sc.src_replay([(g[0], g[1], rich) for g in main] + [(g[0], g[1], False) for g in side], procs=8)
+    side_keys = {sc.json.dumps(g[0], sort_keys=True) for g in side}
+    fails = [f for f in all_fails if sc.json.dumps(f["scn"], sort_keys=True) not in side_keys]
+    side_fails = [f for f in all_fails if sc.json.dumps(f["scn"], sort_keys=True) in side_keys]
+    n_side = sum(len(sc.src_variants(g[0], False)) for g in side)
+    ck.impl += n_all - n_side
     for f in fails:
         ck.fail(f)
-    n_side, side_fails = sc.src_replay(side, rich=False, procs=8)
     by = {}
     for f in side_fails:
         key = f"{f['fac']}:{f['reason_kind']}:{f['escaped_type']}" + (" (the zero-delay defect of C37, not a C09 failure)" if f["zero_delay_prefix"] else "")
